@@ -283,20 +283,38 @@ impl<L: LSPLang> Backend<L> {
       .await;
     let lang = Self::infer_lang_from_uri(&text_doc.uri)?;
     let root = AstGrep::new(text, lang);
-    let mut versioned = self.map.get_mut(uri)?;
-    // skip old version update
-    if versioned.version > text_doc.version {
-      return None;
+    {
+      let mut versioned = self.map.get_mut(uri)?;
+      // skip old version update
+      if versioned.version > text_doc.version {
+        return None;
+      }
+      *versioned = VersionedAst {
+        version: text_doc.version,
+        root,
+      };
+      // don't hold the dashmap guard across an await: another handler touching
+      // the same document would block the only thread that can release it
     }
-    *versioned = VersionedAst {
-      version: text_doc.version,
-      root,
-    };
     self
       .client
       .log_message(MessageType::LOG, "Publishing diagnostics.")
       .await;
-    self.publish_diagnostics(text_doc.uri, &versioned).await;
+    self.publish_current_diagnostics(text_doc.uri).await;
+    Some(())
+  }
+
+  /// publish the diagnostics of the document as it is in the map right now
+  async fn publish_current_diagnostics(&self, uri: Url) -> Option<()> {
+    let (diagnostics, version) = {
+      let versioned = self.map.get(uri.as_str())?;
+      let diagnostics = self.get_diagnostics(&uri, &versioned).unwrap_or_default();
+      (diagnostics, versioned.version)
+    };
+    self
+      .client
+      .publish_diagnostics(uri, diagnostics, Some(version))
+      .await;
     Some(())
   }
   async fn on_close(&self, params: DidCloseTextDocumentParams) {
